@@ -1,8 +1,8 @@
-\* Reset / TrimTo histories and replay: 1 thread, 2 epochs of 3 calls, at most one TrimTo
+\* quick: Reset / TrimTo histories and replay: 1 thread, 2 epochs of 3 calls, at most one TrimTo
 SPECIFICATION Spec
 CONSTANTS
   Threads = {t1}
-  Sizes = {1, 3, 4, 5, 9}
+  Sizes = {1, 4, 5, 9}
   Kinds = {"plain"}
   C0 = 4
   MaxAlloc = 16
